@@ -201,6 +201,13 @@ func Run(tier string, seed int64, outDir string) *common.Meta {
 			}
 		}
 	}
+	// commentedOutCode: a local comment whose text (CommentGroup.Text, i.e. incl. the final newline) has exactly N runes
+	for _, n := range []int{11, 14, 15, 16, 22, 30} {
+		for _, fill := range []string{"a", "é"} {
+			body := "v = foo(" + strings.Repeat(fill, n-10) + ")"
+			emit("comment", n, "", fmt.Sprintf("func cc%d%s() {\n\t// %s\n\tsink++\n}\n\n", n, map[string]string{"a": "a", "é": "u"}[fill], body), 1)
+		}
+	}
 	src.WriteString("var sink int\n")
 	env, err := typecheck(src.String())
 	if err != nil {
@@ -218,6 +225,7 @@ func Run(tier string, seed int64, outDir string) *common.Meta {
 		"results":            {"tooManyResultsChecker", "maxResults", nil},
 		"nesting":            {"nestingReduce", "bodyWidth", nil},
 		"ifelse":             {"ifElseChain", "minThreshold", nil},
+		"comment":            {"commentedOutCode", "minLength", nil},
 	}
 	var kinds []string
 	for k := range specs {
@@ -277,6 +285,8 @@ func Run(tier string, seed int64, outDir string) *common.Meta {
 					model = fmt.Sprintf("nesting_reports %d %d", c.measure, t)
 				case kind == "ifelse":
 					model = fmt.Sprintf("if_else_reports %s %d", c.extra, t)
+				case kind == "comment":
+					model = fmt.Sprintf("negb (comment_too_short %d %d)", c.measure, t)
 				}
 				thrLines = append(thrLines, fmt.Sprintf("  (%s, %s)", model, coqfmt.Bool(reported)))
 				thrIdx = append(thrIdx, fmt.Sprintf("%s measure=%d %s=%d reported=%v %s", kind, c.measure, spec.param, t, reported, c.extra))
@@ -286,6 +296,8 @@ func Run(tier string, seed int64, outDir string) *common.Meta {
 					switch kind {
 					case "results":
 						want = c.measure > t // "more than maxResults"
+					case "comment":
+						want = !(c.measure < t) // comments shorter than minLength runes are skipped
 					default:
 						want = c.measure >= t
 					}
